@@ -38,6 +38,7 @@ structure St where
   attrMode : Nat := 0
   fixFinal : Bool := true
   fixTrunc : Bool := true
+  initInsert : Bool := false
   langof : List Nat := []
   injs : List Inj := []
   locals : List (Nat × Nat × Nat × Nat) := []
@@ -262,13 +263,24 @@ def parseFCaps (s : String) : List Full.FCap :=
 /-- `run fmerge`: the end-to-end model (layers + locals + model-driven injection) vs the real stream. -/
 def runFMerge (s : St) (root : Nat) (top : List Nat) : String :=
   let n := s.src.length
-  let cx : Full.Ctx := { defs := s.fdefs.toList, news := s.fnews.toList, nKnown := 3, rootLang := root }
+  let cx : Full.Ctx := { defs := s.fdefs.toList, news := s.fnews.toList, nKnown := 3, rootLang := root, initInsert := s.initInsert }
+  -- is the initial layer vector of the UNCHANGED set-up (one `sort_layers`) ordered by `sort_key`?
+  let init0 := Full.sortLayers (Full.initLayers { cx with initInsert := false } top)
+  let keys := init0.map Full.sortKey
+  let rec ordered : List (Option Key) → Bool
+    | some a :: some b :: r => !keyLt b a && ordered (some b :: r)
+    | [some _] => true
+    | [] => true
+    | _ => false
+  let initSorted := ordered keys
+  let stk := judgeStacks cx.defs s.evs
+  let cause := if stk.startsWith "FAIL" && !initSorted then "initial-layers-unsorted" else "-"
   let (m, fin) := Full.mergeFull cx top n
   let corr := if decide (m = s.evs) then "ok" else "DIFF"
   let wf := judgeEvents n s.evs
   let ninj := (cx.defs.map fun d => (d.caps.filter fun c => match c.kind with | .inj _ => true | _ => false).length).sum
   let nloc := (cx.defs.map fun d => (d.caps.filter fun c => match c.kind with | .ref _ _ => true | .defn _ _ _ => true | _ => false).length).sum
-  s!"{s.id} kind=F corr={corr} defsin={if Full.defsIn n cx then 1 else 0} refsup={if Full.refsUp cx then 1 else 0} fin={if fin then 1 else 0} wf={if wf then "ok" else "FAIL"} stack={judgeStacks cx.defs s.evs} nlayers={cx.defs.length} ninj={ninj} nloc={nloc} depth={maxDepth s.evs} err={s.err}"
+  s!"{s.id} kind=F corr={corr} defsin={if Full.defsIn n cx then 1 else 0} refsup={if Full.refsUp cx then 1 else 0} fin={if fin then 1 else 0} wf={if wf then "ok" else "FAIL"} stack={stk} cause={cause} initsorted={if initSorted then 1 else 0} nlayers={cx.defs.length} ninj={ninj} nloc={nloc} depth={maxDepth s.evs} err={s.err}"
 
 /-- `run mmerge`: the multi-layer merge model against the real event stream. -/
 def runMMerge (s : St) : String :=
@@ -290,7 +302,10 @@ def runMerge (s : St) : String :=
 
 def step (s : St) (line : String) : IO St := do
   match line.splitOn " " with
-  | ["case", id] => return { id := id, fixFinal := s.fixFinal, fixTrunc := s.fixTrunc }
+  | ["case", id] => return { id := id, fixFinal := s.fixFinal, fixTrunc := s.fixTrunc, initInsert := s.initInsert }
+  | ["probe", "initorder", b] =>
+    IO.println s!"probe kind=W initinsert={b}"
+    return { s with initInsert := b == "1" }
   | ["probe", "lossy", ff, ft, raw] =>
     -- one probe per repaired defect: 1 = the fix is in effect, 0 = the old behaviour, anything else = neither
     IO.println s!"probe kind=V fixfinal={ff} fixtrunc={ft} raw={raw}"
